@@ -139,6 +139,11 @@ def templates(tier="quick"):
     add("dyndep_output_on_scanned_leaf_present", [Variant("v0", stm5)], ["top", "y", "z"], files={"dd": dd5}, tags=["dyndep"])
     add("dyndep_output_on_scanned_leaf_present_n_exists", [Variant("v0", stm5)], ["top", "y", "z"], files={"dd": dd5, "n": "pre-existing\n"},
         tags=["dyndep"])
+    # ... and the consumer z is up to date (built while the dyndep file did not yet claim n): nothing stops y from running
+    add("dyndep_output_on_scanned_leaf_consumer_up_to_date", [Variant("v0", stm5)], ["top", "y", "z"],
+        files={"dd": dyndep_text([("y", [], [], False)]), "n": "pre-existing\n"},
+        extra_ops=[ninja_op(targets=["z"], j=1), {"op": "write", "path": "dd", "content": dd5, "label": "dd:=n is an output of y"}],
+        init=[0, 1], depth=2, tags=["dyndep"])
     stm5b = [Stmt("dd", ex=["dd.in"], copy=True)] + stm5
     add("dyndep_output_on_scanned_leaf_midbuild", [Variant("v0", stm5b)], ["top", "y", "z"], files={"dd.in": dd5, "n": "pre-existing\n"},
         tags=["dyndep"])
